@@ -440,7 +440,10 @@ fn cases_plain(tier: Tier) -> Vec<Case> {
         cfg.lanes = (0..4u8).flat_map(|c| (0..7u8).map(move |i| words::ob_id(c, i))).collect();
         let forms: Vec<u32> = (0..128).collect();
         for form in forms {
-            for (pad_chip, pad) in std::iter::once((0usize, 0u8)).chain((1..7usize).flat_map(|j| (1..=3u8).map(move |k| (j, k)))) {
+            // padding of 1..3 bytes before chip j; for a quarter of the forms also a BUSY ON / BUSY OFF word in front of
+            // 0..3 padding bytes (busy words between chip frames are legal and carry no data)
+            let busy: Vec<(usize, u8)> = if form % 4 == 1 { (1..7usize).flat_map(|j| [0x40u8, 0x80].into_iter().flat_map(move |b| (0..=3u8).map(move |k| (j, b | k)))).collect() } else { vec![] };
+            for (pad_chip, pad) in std::iter::once((0usize, 0u8)).chain((1..7usize).flat_map(|j| (1..=3u8).map(move |k| (j, k)))).chain(busy.into_iter()) {
                 for bad in [false, true] {
                     let mut lanes: Vec<LaneSpec> = legal.iter().map(|id| ob_lane(*id, 0x33, &[ha[0]], &(0..7).collect::<Vec<u8>>())).collect();
                     for (j, c) in lanes[2].chips.iter_mut().enumerate() {
